@@ -31,7 +31,7 @@ Qed.
 
 Lemma stages_nil_iff s1 s0 : Sim s1 s0 -> (match stages0 s0 with [] => true | _ => false end) = no_stage s1.
 Proof.
-  intros HS. pose proof (Rlev_len _ _ _ _ _ _ (sim_lev _ _ HS)) as L. unfold no_stage.
+  intros HS. pose proof (Rlev_len _ _ _ _ _ _ _ (sim_lev _ _ HS)) as L. unfold no_stage.
   destruct (stages0 s0); destruct (stages1 s1); cbn in L; try discriminate; reflexivity.
 Qed.
 
@@ -50,11 +50,12 @@ Proof.
   assert (Hdel : k_del ent = true -> kfind k (jof (log1 s1)) = None).
   { intros D. apply head_of_none_find. rewrite <- Hh. subst ent.
     destruct (kfind k (keys1 s1)) as [e|]; [apply Kk; exact D|reflexivity]. }
-  constructor; cbn [log1 keys1 stages1 len1 size1 dirty1 elimit1 blimit1 regs1 base0 stages0 kf0 dirty0 elimit0 blimit0 regs0].
+  constructor; cbn [log1 keys1 stages1 len1 size1 dirty1 elimit1 blimit1 regs1 lastcp1 base0 stages0 kf0 dirty0 elimit0 blimit0 regs0 lastcp0].
   - apply (sim_chain _ _ HS).
   - apply keys_ok_upsert; [apply (sim_keys _ _ HS)|exact Hh|discriminate].
   - apply ksorted_upsert. exact So.
   - apply (sim_lev _ _ HS).
+  - apply (sim_lastcp _ _ HS).
   - rewrite live_upsert by exact So. cbn [k_del k_flags]. rewrite (sim_kf _ _ HS). reflexivity.
   - rewrite (sim_dirty _ _ HS), (stages_nil_iff _ _ HS). reflexivity.
   - apply (sim_el _ _ HS).
@@ -84,6 +85,8 @@ Lemma with_top0_bl s j : blimit0 (with_top0 s j) = blimit0 s.
 Proof. unfold with_top0. destruct (stages0 s); reflexivity. Qed.
 Lemma with_top0_regs s j : regs0 (with_top0 s j) = regs0 s.
 Proof. unfold with_top0. destruct (stages0 s); reflexivity. Qed.
+Lemma with_top0_lastcp s j : lastcp0 (with_top0 s j) = lastcp0 s.
+Proof. unfold with_top0. destruct (stages0 s); reflexivity. Qed.
 Lemma top0_topJ s : top0 s = topJ (stages0 s) (base0 s).
 Proof. reflexivity. Qed.
 Lemma lower0_lowerJ s : lower0 s = lowerJ (stages0 s) (base0 s).
@@ -91,13 +94,23 @@ Proof. reflexivity. Qed.
 
 Local Open Scope nat_scope.
 
-Lemma Rreg_cons e lj p r1 r0 : Rreg lj p r1 r0 -> Rreg (e :: lj) p r1 r0.
-Proof. intros H. apply (Rreg_grow lj p r1 r0 [e]). exact H. Qed.
+Lemma Rreg_cons e lj p lc r1 r0 : Rreg lj p lc r1 r0 -> Rreg (e :: lj) p lc r1 r0.
+Proof. intros H. apply (Rreg_grow lj p lc r1 r0 [e]). exact H. Qed.
 
-Lemma can_modify_pos s a : 1 <= a -> can_modify s a = Nat.ltb (top_pos (stages1 s)) a.
+Definition lc_allows (lc : option nat) (a : nat) : bool := match lc with None => true | Some c => Nat.ltb c a end.
+
+Lemma can_modify_pos s a : 1 <= a -> can_modify s a = Nat.ltb (top_pos (stages1 s)) a && lc_allows (lastcp1 s) a.
 Proof.
-  intros H. unfold can_modify, top_pos. destruct (stages1 s); cbn [hd]; [|reflexivity].
+  intros H. unfold can_modify, top_pos, lc_allows. f_equal. destruct (stages1 s); cbn [hd]; [|reflexivity].
   symmetry. apply Nat.ltb_lt. lia.
+Qed.
+
+Lemma kpos_head k l a : head_of k l = Some a -> kpos k (jof l) = a.
+Proof.
+  induction l as [|e r IH]; cbn [head_of jof map kpos]; [discriminate|]. fold (jof r).
+  destruct (bytes_eqb k (e_key e)).
+  - intros H. inversion H. cbn [length]. rewrite jof_length. reflexivity.
+  - exact IH.
 Qed.
 
 Lemma set_at_split x v n o :
@@ -109,19 +122,17 @@ Proof.
   - replace x with ((x - length o) + length o) at 1 by lia. apply set_at_app. lia.
 Qed.
 
-Lemma Rreg_taint lj p r1 r0 x v :
-  1 <= x -> Rreg lj p r1 r0 ->
-  Rreg (set_at x v lj) p (map (fun ct => (fst ct, snd ct || Nat.leb (x + p) (fst ct))) r1) r0.
+(* an in-place overwrite above every token of the level leaves the saved copies intact *)
+Lemma Rreg_inplace lj p lc r1 r0 x v :
+  1 <= x -> Rreg lj p lc r1 r0 -> (forall c, In c r1 -> c < x + p) -> Rreg (set_at x v lj) p lc r1 r0.
 Proof.
-  intros Hx [F M]. split.
-  - clear M. induction F as [|ct saved r1 r0 H F IH]; [constructor|]. cbn [map]. constructor; [|exact IH].
-    destruct H as (newer & older & -> & Hc & Hs). rewrite set_at_split.
-    destruct (Nat.leb_spec x (length older)) as [L|L].
-    + exists newer, (set_at x v older). rewrite set_at_length. cbn [fst snd]. repeat split; [exact Hc|].
-      intros T. apply orb_false_elim in T. destruct T as [_ T]. apply Nat.leb_gt in T. lia.
-    + exists (set_at (x - length older) v newer), older. cbn [fst snd]. repeat split; [exact Hc|].
-      intros T. apply orb_false_elim in T. destruct T as [T _]. apply Hs. exact T.
-  - eapply mono_ext; [|exact M]. rewrite map_map. reflexivity.
+  intros Hx (F & M & L) Hlt. refine (conj _ (conj M L)).
+  clear M L. induction F as [|c saved r1 r0 H F IH]; [constructor|]. constructor.
+  - destruct H as (newer & older & -> & Hc & Hs). rewrite set_at_split.
+    assert (Hc' : c < x + p) by (apply Hlt; left; reflexivity).
+    destruct (Nat.leb_spec x (length older)) as [Q|Q]; [lia|].
+    exists (set_at (x - length older) v newer), older. repeat split; assumption.
+  - apply IH. intros c' Hin. apply Hlt. right. exact Hin.
 Qed.
 
 Lemma kfind_prefix k lj rest w x :
@@ -147,7 +158,7 @@ Proof.
   intros HS Hf Hd.
   pose proof (sim_sorted _ _ HS) as So. pose proof (sim_chain _ _ HS) as Ch.
   pose proof (ent_head _ _ HS _ _ Hf) as Hh.
-  destruct (Rlev_top _ _ _ _ _ _ (sim_lev _ _ HS)) as (lj & rest & El & Lr & Etop & Elow & Hreg & Rebuild).
+  destruct (Rlev_top _ _ _ _ _ _ _ (sim_lev _ _ HS)) as (lj & rest & El & Lr & Etop & Elow & Hreg & Rebuild).
   assert (Hlive : kfind k (live (keys1 s1)) = Some (k_flags ent)).
   { rewrite live_find by exact So. rewrite Hf. unfold live_ent. rewrite Hd. reflexivity. }
   (* the append case, shared *)
@@ -156,17 +167,18 @@ Proof.
      Sim (mk1 (mkE k (k_head ent) v :: log1 s1)
               (kupsert k (mkK (Some (S (length (log1 s1)))) (k_flags ent) (k_del ent)) (keys1 s1))
               (stages1 s1) (len1 s1) (size1 s1 + blen v - oldlen) (dirty1 s1) (elimit1 s1) (blimit1 s1)
-              (wseq1 s1) (sseq1 s1) (regs1 s1))
+              (wseq1 s1) (sseq1 s1) (regs1 s1) (lastcp1 s1))
          (with_top0 s0 ((k, v) :: jof lj))).
   { intros oldlen Hold.
-    constructor; cbn [log1 keys1 stages1 len1 size1 dirty1 elimit1 blimit1 regs1];
-      rewrite ?with_top0_stages, ?with_top0_base, ?with_top0_kf, ?with_top0_dirty, ?with_top0_el, ?with_top0_bl, ?with_top0_regs.
+    constructor; cbn [log1 keys1 stages1 len1 size1 dirty1 elimit1 blimit1 regs1 lastcp1];
+      rewrite ?with_top0_stages, ?with_top0_base, ?with_top0_kf, ?with_top0_dirty, ?with_top0_el, ?with_top0_bl, ?with_top0_regs, ?with_top0_lastcp.
     - cbn [chain_ok e_old e_key]. split; [exact Hh|exact Ch].
     - rewrite Hd. apply keys_ok_cons; [reflexivity|apply (sim_keys _ _ HS)].
     - apply ksorted_upsert. exact So.
     - change ((k, v) :: jof lj) with (jof (mkE k (k_head ent) v :: lj)).
       rewrite El. change (mkE k (k_head ent) v :: lj ++ rest) with ((mkE k (k_head ent) v :: lj) ++ rest).
-      apply Rebuild; [apply Rreg_cons; exact Hreg|reflexivity|reflexivity].
+      apply Rebuild; [apply Rreg_cons; exact Hreg|reflexivity|reflexivity|auto].
+    - apply (sim_lastcp _ _ HS).
     - rewrite live_upsert by exact So. cbn [k_del k_flags]. rewrite Hd, (sim_kf _ _ HS).
       symmetry. apply kupsert_same; [apply ksorted_kfmap; exact So|exact Hlive].
     - apply (sim_dirty _ _ HS).
@@ -201,19 +213,27 @@ Proof.
       rewrite Hlt. cbn [andb].
       assert (Hvj : kfind k (jof lj) = Some (value_at (x + top_pos (stages1 s1)) (log1 s1))).
       { apply (kfind_prefix k lj rest _ x); [rewrite <- El; exact Hv|exact Hx]. }
-      rewrite Hvj. destruct (coalesces (value_at (x + top_pos (stages1 s1)) (log1 s1)) v) eqn:Co.
+      assert (Hun : unprotected0 k s0 = lc_allows (lastcp1 s1) (x + top_pos (stages1 s1))).
+      { unfold unprotected0, lc_allows. rewrite (sim_lastcp _ _ HS). change (concat (stages0 s0) ++ base0 s0) with (all0 s0).
+        rewrite (all_jof _ _ HS), (kpos_head _ _ _ Hh). reflexivity. }
+      rewrite Hvj, Hun.
+      destruct (coalesces (value_at (x + top_pos (stages1 s1)) (log1 s1)) v) eqn:Co;
+        destruct (lc_allows (lastcp1 s1) (x + top_pos (stages1 s1))) eqn:La; cbn [andb];
+        try (apply Append; rewrite Hv; reflexivity).
       * (* in place *)
         assert (Eset : set_at (x + top_pos (stages1 s1)) v (log1 s1) = set_at x v lj ++ rest).
         { rewrite El, <- Lr. apply set_at_app. lia. }
-        constructor; cbn [log1 keys1 stages1 len1 size1 dirty1 elimit1 blimit1 regs1];
-          rewrite ?with_top0_stages, ?with_top0_base, ?with_top0_kf, ?with_top0_dirty, ?with_top0_el, ?with_top0_bl, ?with_top0_regs.
+        constructor; cbn [log1 keys1 stages1 len1 size1 dirty1 elimit1 blimit1 regs1 lastcp1];
+          rewrite ?with_top0_stages, ?with_top0_base, ?with_top0_kf, ?with_top0_dirty, ?with_top0_el, ?with_top0_bl, ?with_top0_regs, ?with_top0_lastcp.
         -- apply set_at_chain. exact Ch.
         -- intros k'. rewrite set_at_head_of. apply (sim_keys _ _ HS).
         -- exact So.
         -- rewrite Eset. rewrite <- (set_at_jof k v lj x Hx).
-           apply Rebuild; [|reflexivity|reflexivity].
-           unfold taint. cbn [hd].
-           apply Rreg_taint; [lia|exact Hreg].
+           apply Rebuild; [|reflexivity|reflexivity|auto].
+           apply Rreg_inplace; [lia|exact Hreg|].
+           intros c Hc. destruct Hreg as (_ & _ & L). destruct (L c Hc) as (cl & Ecl & Hle).
+           unfold lc_allows in La. rewrite Ecl in La. apply Nat.ltb_lt in La. lia.
+        -- apply (sim_lastcp _ _ HS).
         -- apply (sim_kf _ _ HS).
         -- apply (sim_dirty _ _ HS).
         -- apply (sim_el _ _ HS).
@@ -223,7 +243,6 @@ Proof.
            rewrite (set_at_jof k v (log1 s1) _ Hh).
            unfold coalesces in Co. apply andb_true_iff in Co. destruct Co as [_ Co]. apply Nat.eqb_eq in Co.
            eapply vlen_jreplace; eassumption.
-      * apply Append. rewrite Hv. reflexivity.
     + (* newest value lies below the current level: CanModify is false *)
       assert (Hr : head_of k rest = Some a) by congruence.
       pose proof (head_of_bound _ _ _ Hr) as Hb2. rewrite Lr in Hb2.
